@@ -51,7 +51,7 @@ def main(argv):
         if prop == 'C19' and scale is not None:
             # one range per kind of run-index block: enumerated sweep, random, cold-import sweep
             # ... and fractional / lookup-layer sweep (block 1)
-            todo += [('C19', 0, 40), ('C19', 128, 40), ('C19', 256, 30), ('C19', 512, 40)]
+            todo += [('C19', 0, 40), ('C19', 128, 40), ('C19', 256, 30), ('C19', 512, 40), ('C19', 896, 30)]
         else:
             todo.append((prop, 0, n_override if scale is None else N[prop]))
     for prop, first0, n in todo:
